@@ -724,6 +724,9 @@ type FileOpts struct {
 	Modules bool
 	// Huge: the file may carry one element >= 2 MiB
 	Huge bool
+	// Tagged: most keys carry a {hash tag} and every third value is a stream with
+	// groups (the ReplaceHashTag lane: key arguments in other than the first position)
+	Tagged bool
 	// Many: "slpmany" / "hlpmany": the first key is a listpack set / hash of >= 65535 elements
 	Many string
 	// Reserved: keys under the reserved prefixes are generated too, preferably as the
@@ -833,11 +836,24 @@ func (g *Gen) File(o FileOpts) *Dataset {
 				kt = "r" + g.lenForm(len(k)) + ":" + hx(k)
 			}
 		}
+		if o.Tagged && g.R.Chance(2, 3) && !g.used["tag/"+string(k)] {
+			// insert a {tag}: at the front, inside, or unbalanced
+			tag := vfutil.Pick(g.R, []string{"{t}", "{}", "{", "}{", "{a}{b}"})
+			pos := g.R.Intn(len(k) + 1)
+			nk := append(append(append([]byte{}, k[:pos]...), tag...), k[pos:]...)
+			if !g.used[string(nk)] {
+				g.used[string(nk)], g.used["tag/"+string(nk)] = true, true
+				k = nk
+				kt = "r" + g.lenForm(len(k)) + ":" + hx(k)
+			}
+		}
 		g.used[fmt.Sprintf("%d/%s", db, k)] = true
 		var ot, kind string
 		var val *Val
 		if o.Many != "" && i == 0 {
 			ot, val, kind = g.ObjKind(o.Many)
+		} else if o.Tagged && g.R.Chance(1, 3) {
+			ot, val, kind = g.ObjKind("stream")
 		} else if o.Modules && g.R.Chance(1, 25) {
 			ot, val, kind = g.ObjKind("mod2")
 		} else {
